@@ -30,6 +30,10 @@ def _default(pid):
     }
 
 
+for _k in META:
+    if META[_k].get('technique') == 'TECH':
+        META[_k]['technique'] = TECH
+META['C16']['technique'] = TECH
 for _i in range(1, 21):
     _p = 'C%02d' % _i
     if _p not in META:
